@@ -7,7 +7,7 @@ code vs the same model executed at Rat (natural p, exact p-th power) and at Floa
 of generated diagrams, their differences and random linear combinations, and on synthetic piecewise-linear
 functions.  [T] on the real code: real p, homogeneity, ||P-P|| = 0, triangle inequality, finiteness, sup-norm
 stability vs `persim.bottleneck`, and an independent quadrature oracle (scipy.integrate.quad with breakpoints).
-(Homogeneity, P-P and stability are also theorems; Minkowski and real p are tests only.)
+(Homogeneity, P-P, the triangle inequality and stability are also theorems for natural p; real p is tests only.)
 """
 import contextlib, io, math
 from fractions import Fraction
@@ -703,14 +703,15 @@ MANIFEST = {
             "the interval integral of |line|^p; the accumulated value equals the sum over depths of the integral of |evalPL|^p "
             "over the support and, for p >= 1, over the real line, so the returned norm is its p-th root; the sup norm of both "
             "classes equals the greatest value of |evalPL| over all depths (attained at a breakpoint); the value is non-negative, "
-            "absolutely homogeneous (p-norm and sup norm), zero on P - P; base.py rejects exactly p < -1 and -1 < p < 0; the "
+            "absolutely homogeneous (p-norm and sup norm), zero on P - P, and satisfies the triangle inequality (Minkowski in L^p per "
+            "depth via Mathlib's lintegral_Lp_add_le, then in l^p over depths) whenever h represents f + g; base.py rejects exactly p < -1 and -1 < p < 0; the "
             "pre-fix formula is refuted by norm_num on [(0,0),(1,1),(3,-1),(4,0)] (2/3 instead of 4/3). Stability is proved for "
             "the mathematical landscape: a partial matching of cost <= eps gives |lambda_k(t) - lambda'_k(t)| <= eps for all k, "
             "t, hence sup-norm distance <= bottleneck distance. The model is tied to the code on every run at Rat (exact p-th "
             "power, natural p in 1..20, 1e-9 relative) and at Float (real p) on exact and grid landscapes, their differences and "
             "linear combinations and on synthetic functions with forced zeros, equal and nearly equal neighbours.",
-    "note": "[T] only, not proved: real (non-integer) p (Float model + quadrature oracle); Minkowski's triangle inequality (a "
-            "property of the integral the theorems identify the value with; tested on triples); finiteness/accuracy under float "
+    "note": "[T] only, not proved: real (non-integer) p (Float model + quadrature oracle; homogeneity/triangle/zero laws for real "
+            "p are tests on the real code); finiteness/accuracy under float "
             "rounding (law stream; this is what exposed the near-flat cancellation repaired by b342827); the stability theorem is "
             "about PL.landscape, its transfer to the code's sweep rests on C03/C09 and is additionally tested against "
             "persim.bottleneck (cases where the C03 repeated-bar shortcut fires are skipped and counted). Trusted: Lean kernel + "
